@@ -43,7 +43,7 @@ def evaluate(ctx, out):
     cov["expansion_hashes"] = sorted(set(r["hashes"]))
     cov["traces_validated_against_impl"] = r["k_runs"]
     cov["rule"] = ("the declarations of %d corpus subjects (many variants, discriminants spread over the whole i64 range, renames, all "
-                   "configurations) expanded with `rustc -Zunpretty=expanded` in %d fresh processes (each with fresh RandomState keys); "
+                   "configurations) expanded with `rustc -Zunpretty=expanded` in %d fresh processes (each with fresh RandomState keys, and under four different sets of CARGO_CFG_* / TARGET / PROFILE / locale variables in the environment); "
                    "every declaration is expanded twice per process at different positions; all dumps and both copies must be byte-identical; a subject is non-trivial when it has at least two variants"
                    % (r["n_subjects"], r["k_runs"]))
     cov["samples"] = [{"expansion_excerpt": r.get("sample_module", "")[:900]}]
